@@ -43,6 +43,9 @@ pub struct Scn {
     /// the very first datagram of the run (a client's first Initial) is damaged in transit: the
     /// original is lost, a copy with one authenticated bit flipped arrives instead
     pub damaged_first: bool,
+    /// the server validates addresses with Retry (every client's second Initial carries the
+    /// connection ID the Retry gave it - an empty one when the server uses zero-length CIDs)
+    pub retry: bool,
 }
 
 fn plan(len: usize) -> Plan {
@@ -80,6 +83,9 @@ pub fn build(base: Instant, s: &Scn, fates: BTreeMap<u64, Fate>) -> MW {
     let sc = server_config(&cfg, keylog.clone(), w.sim_time.clone());
     let srv = w.add_node(1, cfg.cid_len, cfg.cid_lifetime, Some(Arc::new(sc)), |_| {});
     assert_eq!(srv, SERVER);
+    if s.retry {
+        w.nodes[SERVER].policy = crate::sim::AcceptPolicy::Retry;
+    }
     let x = w.add_node(2, cfg.cid_len, cfg.cid_lifetime, None, |_| {});
     let y = w.add_node(3, cfg.cid_len, cfg.cid_lifetime, None, |_| {});
     let mut conns = vec![];
@@ -373,7 +379,7 @@ pub fn run(base: Instant, s: &Scn, devs: &Devs, alts: &[Fate], dump: bool) -> Ou
 
 pub fn scenarios(thorough: bool) -> Vec<Scn> {
     let mut v = vec![];
-    let mk = |name: &str, cid_len: usize| Scn { name: name.into(), cid_len, cid_lifetime_ms: None, addr_changed: vec![], close: vec![], fourth_at: None, window: (0, 30), same_client_endpoint_twice: false, fourth_when_forgotten: false, long_delay_ms: None, damaged_first: false };
+    let mk = |name: &str, cid_len: usize| Scn { name: name.into(), cid_len, cid_lifetime_ms: None, addr_changed: vec![], close: vec![], fourth_at: None, window: (0, 30), same_client_endpoint_twice: false, fourth_when_forgotten: false, long_delay_ms: None, damaged_first: false, retry: false };
     for l in [8usize, 0, 1, 4, 20] {
         v.push(mk(&format!("cid{l}"), l));
     }
@@ -430,6 +436,20 @@ pub fn scenarios(thorough: bool) -> Vec<Scn> {
         s.window = (1, 24);
         v.push(s);
     }
+    // address validation by Retry for every CID length (with zero-length CIDs the post-Retry
+    // Initials of all clients carry the same, empty, destination CID)
+    for cl in [0usize, 8, 1, 20] {
+        let mut s = mk(&format!("retry-cid{cl}"), cl);
+        s.retry = true;
+        s.window = (0, 30);
+        v.push(s);
+    }
+    let mut s = mk("retry-cid8-close1@30+fourth", 8);
+    s.retry = true;
+    s.close = vec![(30, 1)];
+    s.fourth_at = Some(60);
+    s.window = (24, 54);
+    v.push(s);
     let mut s = mk("cid4-close+fourth", 4);
     s.close = vec![(20, 0), (26, 1)];
     s.fourth_at = Some(70);
